@@ -1,1 +1,4 @@
-//! shared harness helpers
+//! Shared helpers for the conformance harness (see /verif/DESIGN.md §4).
+pub mod sched;
+pub mod trace;
+pub mod util;
